@@ -566,3 +566,55 @@ pub fn c15(tier: Tier) -> i32 {
     rep.assume("exhaustive only within the stated mutation distance (one edit) and catalogue, not over all byte strings up to the frame limit");
     rep.finish()
 }
+
+fn unhex(s: &str) -> Vec<u8> {
+    (0..s.len() / 2).map(|i| u8::from_str_radix(&s[2 * i..2 * i + 2], 16).unwrap_or(0)).collect()
+}
+
+pub fn replay(v: &Value) -> i32 {
+    let r = &v["replay"];
+    let w = World::new(&[1, 1, 1, 1]);
+    let input = unhex(r["input_hex"].as_str().unwrap_or(""));
+    if r["stage"] == "decoder" {
+        let kind = r["decoder"].as_str().unwrap_or("consensus").to_string();
+        // re-run the one decoder on the one input
+        let res = std::panic::catch_unwind(std::panic::AssertUnwindSafe(|| match kind.as_str() {
+            "consensus" => bincode::deserialize::<ConsensusMessage>(&input).is_ok(),
+            "mempool" => bincode::deserialize::<MempoolMessage>(&input).is_ok(),
+            "block" => bincode::deserialize::<Block>(&input).is_ok(),
+            "pk-bincode" => bincode::deserialize::<PublicKey>(&input).is_ok(),
+            "sk-bincode" => bincode::deserialize::<SecretKey>(&input).is_ok(),
+            "pk-json" => serde_json::from_slice::<PublicKey>(&input).is_ok(),
+            "sk-json" => serde_json::from_slice::<SecretKey>(&input).is_ok(),
+            "pk-base64" => std::str::from_utf8(&input).map(|s| PublicKey::decode_base64(s).is_ok()).unwrap_or(false),
+            "sk-base64" => std::str::from_utf8(&input).map(|s| SecretKey::decode_base64(s).is_ok()).unwrap_or(false),
+            "digest" => bincode::deserialize::<Digest>(&input).is_ok(),
+            _ => bincode::deserialize::<Signature>(&input).is_ok(),
+        }));
+        match res {
+            Ok(ok) => {
+                println!("decoder {} returned {} on the {}-byte input: no panic", kind, if ok { "Ok" } else { "Err" }, input.len());
+                0
+            }
+            Err(_) => {
+                println!("decoder {} PANICKED on the {}-byte input", kind, input.len());
+                1
+            }
+        }
+    } else {
+        let kind = match r["port"].as_str().unwrap_or("consensus") {
+            "consensus" => 0u8,
+            "mempool" => 1,
+            _ => 2,
+        };
+        let h = Hostile { port_kind: kind, bytes: input, raw: r["raw"] == true, desc: r["description"].as_str().unwrap_or("").to_string() };
+        let (p, f) = run_chunk(&w, 0, std::slice::from_ref(&h));
+        println!("delivered [{}] to the {} port of a fresh real full node\n  panics: {:?}\n  functional probes failed: {:?}", h.desc, port_name(kind), p, f);
+        if p.is_empty() && f.is_empty() {
+            println!("replay did not reproduce a violation of C15");
+            0
+        } else {
+            1
+        }
+    }
+}
